@@ -248,6 +248,15 @@ def rule_repaint(ctx: Ctx) -> RuleResult:
         if hit:
             rr.add(finding("INV", ds, hit[0].stmt, f"`{norm(hit[0].stmt, 40)}` is reached after the walk over canvas.content() without `self._resized` being tested again: a SIGWINCH delivered during the walk lets output computed for the old size be written to the resized terminal and remembered in screen_buf", construct="no _resized test between the content walk and the write"))
             break
+    # ... and a resize signalled *while writing*: the handler reset screen_buf; the record after the write loop must
+    # not overwrite that reset - `self._resized` is tested once more between the last write and the record
+    rr.inst("resize re-checked between the write and the record", True, {"writes": len(writes), "records": len(rec)})
+    for w in writes:
+        after = cfg.reachable([w], avoid=tests, labels=("n", "T", "F", "e"))
+        hit = [r_ for r_ in rec if r_ in after]
+        if hit:
+            rr.add(finding("INV", ds, hit[0].stmt, f"`{norm(hit[0].stmt, 40)}` follows the write loop without `self._resized` being tested in between: a SIGWINCH delivered while the output is written resets screen_buf in the handler, and this store puts the buffer of the old size back - the next draw is a diff against a screen the terminal no longer shows", construct="no _resized test between the write and the screen_buf record"))
+            break
     return rr
 
 
@@ -528,6 +537,7 @@ def run(ctx: Ctx):
 _RW = "urwid/display/_raw_display_base.py"
 _HT = "urwid/display/html_fragment.py"
 MUTANTS = [
+    Mut("record-overwrites-resize-reset", _RW, "urwid.display._raw_display_base.Screen.draw_screen", "        if self._resized:\n            # the size changed while writing: what the terminal shows now is unknown, repaint completely next time\n            return\n\n        self.screen_buf = sb", "        self.screen_buf = sb", "INV|display._raw_display_base.Screen.draw_screen|no _resized test between the write and the screen_buf record"),
     Mut("last-row-single-character", _RW, "urwid.display._raw_display_base.Screen._last_row", "            if len(row) < 2:\n                # a single character fills the whole row: there is no Y to slide in\n                return row, 0, None\n", "", "GUARD|display._raw_display_base.Screen._last_row"),
     Mut("initial-rendition-only-on-full-repaint", _RW, "urwid.display._raw_display_base.Screen.draw_screen", "        output: list[str] = [escape.HIDE_CURSOR, attr_to_escape(last_attributes)]\n", "        output: list[str] = [escape.HIDE_CURSOR]\n        if not self.screen_buf:\n            output.append(attr_to_escape(last_attributes))\n", "PAIR|display._raw_display_base.Screen.draw_screen|rendition model"),
     Mut("erase-shortcut-with-strikethrough", _RW, "urwid.display._raw_display_base.Screen.draw_screen", "(a.standout or a.underline or a.strikethrough)", "(a.standout or a.underline)", "TAB|display._raw_display_base.Screen.draw_screen|erase shortcut not disabled for strikethrough"),
